@@ -50,6 +50,20 @@ def programs(tier, b, r):
         B = gen.Builder("r%d/val/F/%d" % (r, x[0]), "plain", None, {"op": "val", "kinds": "F"})
         B.add({"op": "meth", "name": "val", "a": B.opnd(("F", x)), "tag": "main"})
         progs.append(B.build())
+    for nm in gen.ASSERT2:
+        for x in fvals[::2]:
+            for y in fvals[::3]:
+                for kb in ("F", "f"):
+                    B = gen.Builder("r%d/%s/F%s/%d,%d" % (r, nm, kb, x[0], y[0]), "plain", None, {"op": nm, "kinds": "F" + kb})
+                    ra, rb = B.opnd(("F", x)), B.opnd((kb, y))
+                    B.add({"op": "meth", "name": nm, "a": ra, "args": [rb], "tag": "main"})
+                    progs.append(B.build())
+            for n in (-1, 0, 1, 2):
+                for kb in ("S", "c", "SB"):
+                    B = gen.Builder("r%d/%s/F%s/%d,%d" % (r, nm, kb, x[0], n), "plain", None, {"op": nm, "kinds": "F" + kb})
+                    ra, rb = B.opnd(("F", x)), B.opnd((kb, n & 1 if kb == "SB" else n))
+                    B.add({"op": "meth", "name": nm, "a": ra, "args": [rb], "tag": "main"})
+                    progs.append(B.build())
     for fn, kinds in (("LinCombFxp", ["S", "U"]), ("ensurefxp", ["S", "SB", "c", "f", "F"]), ("PrivValFxp", ["c", "f"]), ("PubValFxp", ["c", "f"])):
         for k in kinds:
             for n in (-3, -1, 0, 1, 2):
